@@ -263,6 +263,12 @@ def run(ctx, n_random=None, max_w=None, per_wide=None, n_inner=-1, classes=None)
             for _ in range(n_random if n == variant[2] else max(1, n_random // 3)):
                 cases.append(('random@' + ('full' if n == variant[2] else 'boundary' if n in field_b else 'inner'),
                               cc.zero_text_padding(cc.make_payload(rng, variant, n), spec)))
+        # a payload whose 60-character fragments repeat (period 360 bits from bit 0, header included): the sentence layer must
+        # number and keep equal fragments like any others
+        if variant[2] >= 720:
+            b = cc.make_payload(rng, variant)
+            for n in [m for m in field_b + inner if m >= 720][-3:]:
+                cases.append(('repeated-fragments', cc.zero_text_padding((b[:360] * 3)[:n], spec)))
         # per-field sweeps at the full length ...
         for kind, bits in sweep_cases(rng, variant, lay, spec, max_w, per_wide, all_chars=not ctx.quick or ctx.escalated):
             cases.append((kind, cc.zero_text_padding(bits, spec)))
